@@ -413,7 +413,7 @@ func (x *Exec) resolveAddr(v ssa.Value) Addr {
 		ufail("IndexAddr on %s", a.X.Type())
 	case *ssa.Global:
 		elem := a.Type().(*types.Pointer).Elem()
-		return Addr{Kind: aLocal, Typ: elem, Heap: "G:" + a.Pkg.Pkg.Name() + "." + a.Name()}
+		return Addr{Kind: aLocal, Typ: elem, Heap: "G:" + a.Pkg.Pkg.Name() + "." + a.Name(), Global: a}
 	}
 	// a pointer value
 	pt, ok := v.Type().Underlying().(*types.Pointer)
@@ -1470,6 +1470,14 @@ func (x *Exec) enterLoop(li *loopInfo, st *State, pc Term) {
 			goal := x.evalClause(env, c)
 			x.vc.oblige(&Obligation{Name: c.Name + ".init", Kind: "invariant-init", Tags: c.Tags, Goal: goal, PC: pc, Src: c.Src, Pos: x.posStr(firstPos(b)), Observe: x.observations()})
 		}
+	}
+	if x.fc != nil && x.fc.TerminatesOn {
+		goal := tTrue
+		if li.iter == nil && li.idxAlloc == nil && li.idxPhi == nil {
+			goal = tFalse
+		}
+		x.vc.oblige(&Obligation{Name: fmt.Sprintf("%s.loop%d.terminates", x.fnName(), li.num), Kind: "termination", Tags: x.fc.Terminates, Goal: goal, PC: tTrue,
+			Src: "the loop ranges over a slice, string or map (structurally bounded); any other loop needs a bound that hv cannot check", Pos: x.posStr(firstPos(b))})
 	}
 	if g, ok := x.rangeIdxInv(li, st); ok {
 		// len >= 0 is the slice type invariant; the index part is proved
